@@ -73,7 +73,12 @@ unsigned int ConstraintSet::AddContactConstraint (
 
   if(contactConstraints.size() > 0) {
     unsigned int i = unsigned(contactConstraints.size()-1);
-    if(contactConstraints[i]->getBodyIds()[0] == body_id) {
+    //A normal can only be appended to a constraint whose rows are the last
+    //rows of the system: otherwise the new row would overlap with the rows
+    //of the constraints that have been added in between.
+    if(contactConstraints[i]->getBodyIds()[0] == body_id
+        && contactConstraints[i]->getConstraintIndex()
+           + contactConstraints[i]->getConstraintSize() == insertAtRowInG) {
       Vector3d pointErr = body_point -
                           contactConstraints[i]->getBodyFrames()[0].r;
 #ifdef RBDL_USE_CASADI_MATH
@@ -188,8 +193,12 @@ unsigned int ConstraintSet::AddLoopConstraint (
 
   if(loopConstraints.size() > 0) {
     idx = idx-1;
+    //An axis can only be appended to a constraint whose rows are the last
+    //rows of the system (see AddContactConstraint)
     if(loopConstraints[idx]->getBodyIds()[0] == idPredecessor &&
-        loopConstraints[idx]->getBodyIds()[1] == idSuccessor) {
+        loopConstraints[idx]->getBodyIds()[1] == idSuccessor &&
+        loopConstraints[idx]->getConstraintIndex()
+        + loopConstraints[idx]->getConstraintSize() == insertAtRowInG) {
 
       bool framesNumericallyIdentical=true;
       SpatialTransform frameErrorPre, frameErrorSuc;
